@@ -128,6 +128,21 @@ func init() {
 		} else {
 			o.Lean.WriteString("def concJoin : String := \"\"\n\n")
 		}
+		// what each of the six process kinds answers to Retryable(): the returned literal
+		retry := []string{}
+		for _, k := range []string{"ecdsa/keygen", "ecdsa/signing", "ecdsa/resharing", "frost/keygen", "frost/signing", "frost/resharing"} {
+			recv := map[string]string{"keygen": "Keygen", "signing": "Signing", "resharing": "Resharing"}[k[strings.Index(k, "/")+1:]]
+			ans := "?"
+			if fd := FindFunc(o.ParseFile("tss/"+k+"/"+k[strings.Index(k, "/")+1:]+".go"), recv, "Retryable"); fd != nil && fd.Body != nil && len(fd.Body.List) == 1 {
+				if rs, ok := fd.Body.List[0].(*ast.ReturnStmt); ok && len(rs.Results) == 1 {
+					ans = Src(rs.Results[0])
+				}
+			}
+			retry = append(retry, k+"="+ans)
+		}
+		o.Facts["retryable"] = retry
+		o.Lean.WriteString("/-- `Retryable()` of the six tss process kinds (the literal each returns) -/\n")
+		o.Lean.WriteString("def retryable : List String := " + LeanStrList(retry) + "\n\n")
 		o.Facts["classify_cases"] = cases
 		o.Facts["retry_excludes"] = retryExcludes
 		o.Facts["retryable_guard"] = retryableGuard
